@@ -3,7 +3,7 @@ from __future__ import annotations
 
 from typing import Any, Dict, List, Optional
 
-from ..kit import Ctx, alloc_literal, calls, kw, normal_paths, poly_of, rule, short, stores
+from ..kit import caller_ok, Ctx, alloc_literal, calls, kw, normal_paths, poly_of, rule, short, stores
 from ..paths import Event, Path
 from ..terms import NONE, Term, key, strip_ver, subterms
 from .c14 import check_target_discipline
@@ -151,7 +151,7 @@ def check_target_discipline_one(ctx: Ctx) -> None:
     # the helper may be reached for a non-target only by raising -- and the handler never lets it
     g = ctx.func(f"{PLR}.get_limited_price")
     for s in ctx.cg.sites_calling(g.qualname):
-        ctx.check(s.caller.qualname == m.qualname, s.caller, s.node, "caller of get_limited_price", m.qualname, s.caller.qualname)
+        ctx.check(caller_ok(ctx, s.caller, lambda g: g.qualname == m.qualname), s.caller, s.node, "caller of get_limited_price", m.qualname, s.caller.qualname)
 
 
 @rule("C15.H1", "mechanism shared with C13: the before-order hook runs before acceptance (hence before tick rounding) for every order in both phases", "T5 ordering (the before-order part of C13.R3)", floor=1)
